@@ -25,6 +25,7 @@
   `start` and an `Extra` one between `D/2` and `D/2 + min(|dx|,|dy|)` ahead of it.
 -/
 import EG.Lemmas.ThickGeoMetric
+import EG.Lemmas.ThickGeoHole
 import EG.Lemmas.ThickTotal
 namespace EG.C17.Stroke
 open EG
@@ -80,5 +81,51 @@ theorem thick_within_one_pixel_of_ends (l : Line) (w : Nat) (ps : List Pt)
     · right; nlinarith
 
 example : (⟨7, 2⟩ : Pt) ∈ (Thick.thickPoints ⟨⟨2, 2⟩, ⟨6, 4⟩⟩ 3).getD [] := by decide
+
+
+/-- **A stroked line has no hole** (oracle class `C17:thick-hole`, its exact predicate, for EVERY
+such lattice point, not only those of the middle slab): for a line of non-zero length and a width
+`2 <= w <= i32::MAX`, every lattice point `q` of the ideal stroke shrunk by one pixel on every side,
+    4 cross(q)^2 <= (w - 2)^2 L2                                    (|distance| <= w/2 - 1),
+    dot(q) >= 0, dot(q)^2 >= L2, L2 - dot(q) >= 0, (L2 - dot(q))^2 >= L2
+                                                (projection at least 1 px inside both ends),
+is a stroked pixel. At the middle this is the text's "at least w - 1 pixels wide" read as a SOLID
+width: `w - 2` plus one pixel. (Mechanism: the bands of the parallels tile the plane; the
+accumulator that ends the iterator exceeds `2 w L` and counts at most `2 max(|dx|,|dy|)` per
+parallel, so all bands within `w/2 - 1` of the line have been yielded.) -/
+theorem thick_solid (l : Line) (hnd : l.start ≠ l.stop) (w : Nat) (hw : 2 ≤ w) (hw2 : w ≤ 2147483647)
+    (ps : List Pt) (h : Thick.thickPoints l w = some ps) (q : Pt)
+    (hc : 4 * cross l q ^ 2 ≤ ((w : Int) - 2) ^ 2 * L2 l)
+    (hd1 : 0 ≤ dot l q) (hd2 : L2 l ≤ dot l q ^ 2)
+    (hd3 : 0 ≤ L2 l - dot l q) (hd4 : L2 l ≤ (L2 l - dot l q) ^ 2) : q ∈ ps := by
+  have hD := (Thick.ctxOf_valid l).hD
+  have hL : (Thick.ctxOf l).D * (Thick.ctxOf l).D ≤ L2 l := by
+    rw [L2_eq]
+    have := Int.mul_nonneg (Thick.ctxOf_valid l).hd0 (Thick.ctxOf_valid l).hd0
+    omega
+  apply Thick.thickPoints_solid l hnd w hw hw2 ps h q
+  · rw [ph_sq, ← L2_eq]
+    have : ((w : Int) - 2) ^ 2 = ((w : Int) - 2) * ((w : Int) - 2) := by
+      rw [Int.pow_succ, Int.pow_succ, Int.pow_zero, Int.one_mul]
+    rw [← this]; exact hc
+  · rw [← dot_eq]
+    by_contra hlt
+    have : dot l q * dot l q < (Thick.ctxOf l).D * (Thick.ctxOf l).D := by nlinarith
+    have : dot l q ^ 2 = dot l q * dot l q := by
+      rw [Int.pow_succ, Int.pow_succ, Int.pow_zero, Int.one_mul]
+    omega
+  · rw [← dot_eq, ← L2_eq]
+    by_contra hlt
+    have : (L2 l - dot l q) * (L2 l - dot l q) < (Thick.ctxOf l).D * (Thick.ctxOf l).D := by nlinarith
+    have : (L2 l - dot l q) ^ 2 = (L2 l - dot l q) * (L2 l - dot l q) := by
+      rw [Int.pow_succ, Int.pow_succ, Int.pow_zero, Int.one_mul]
+    omega
+
+example : (⟨2, 2⟩ : Pt) ≠ ⟨6, 4⟩ ∧ (2 : Nat) ≤ 5 ∧
+    4 * cross ⟨⟨2, 2⟩, ⟨6, 4⟩⟩ ⟨4, 2⟩ ^ 2 ≤ ((5 : Int) - 2) ^ 2 * L2 ⟨⟨2, 2⟩, ⟨6, 4⟩⟩ ∧
+    0 ≤ dot ⟨⟨2, 2⟩, ⟨6, 4⟩⟩ ⟨4, 2⟩ ∧ L2 ⟨⟨2, 2⟩, ⟨6, 4⟩⟩ ≤ dot ⟨⟨2, 2⟩, ⟨6, 4⟩⟩ ⟨4, 2⟩ ^ 2 ∧
+    0 ≤ L2 ⟨⟨2, 2⟩, ⟨6, 4⟩⟩ - dot ⟨⟨2, 2⟩, ⟨6, 4⟩⟩ ⟨4, 2⟩ ∧
+    L2 ⟨⟨2, 2⟩, ⟨6, 4⟩⟩ ≤ (L2 ⟨⟨2, 2⟩, ⟨6, 4⟩⟩ - dot ⟨⟨2, 2⟩, ⟨6, 4⟩⟩ ⟨4, 2⟩) ^ 2 ∧
+    cross ⟨⟨2, 2⟩, ⟨6, 4⟩⟩ ⟨4, 2⟩ = -4 := by decide
 
 end EG.C17.Stroke
